@@ -15,6 +15,7 @@ Definition p0 : pinfo := mkp 0 false false false.
 
 Lemma poll_harmless m ins now i s : harmless i s ->
   lq (fst (poll_task m ins now i s)) = lq s /\ cq (fst (poll_task m ins now i s)) = cq s /\
+  inj (fst (poll_task m ins now i s)) = inj s /\
   (forall j, harmless j s -> harmless j (fst (poll_task m ins now i s))) /\
   snd (poll_task m ins now i s) = p0.
 Proof.
@@ -22,80 +23,82 @@ Proof.
   assert (Ec : code_of i (add_trace (RPoll i (wk_of i s) now) s) = code t)
     by (unfold code_of; rewrite get_add_trace, Hg; reflexivity).
   rewrite Ec. destruct Hc as [Hc|Hc]; rewrite Hc.
-  - unfold finish. rewrite get_add_trace, Hg.
-    assert (E : match jh t with
-                | JHeld j => match get j (add_trace (RPoll i (wk_of i s) now) s) with
-                             | Some tj => match stat tj with
-                                          | BlockedJoin i' => if Nat.eqb i' i
-                                               then wake ins now j (upd_task i (fun t0 => set_stat Done (set_code None t0)) (add_trace (RPoll i (wk_of i s) now) s))
-                                               else (upd_task i (fun t0 => set_stat Done (set_code None t0)) (add_trace (RPoll i (wk_of i s) now) s), false)
-                                          | _ => (upd_task i (fun t0 => set_stat Done (set_code None t0)) (add_trace (RPoll i (wk_of i s) now) s), false)
-                                          end
-                             | None => (upd_task i (fun t0 => set_stat Done (set_code None t0)) (add_trace (RPoll i (wk_of i s) now) s), false)
-                             end
-                | _ => (upd_task i (fun t0 => set_stat Done (set_code None t0)) (add_trace (RPoll i (wk_of i s) now) s), false)
-                end = (upd_task i (fun t0 => set_stat Done (set_code None t0)) (add_trace (RPoll i (wk_of i s) now) s), false)).
-    { destruct (jh t) as [| |k] eqn:Ej; try reflexivity. exfalso. exact (Hj k eq_refl). }
+  - set (s1 := upd_task i (fun t0 => set_stat Done (set_code None t0)) (add_trace (RPoll i (wk_of i s) now) s)).
+    assert (E : finish ins now i (add_trace (RPoll i (wk_of i s) now) s) = (s1, false)).
+    { unfold finish. rewrite get_add_trace, Hg. destruct (jh t) as [| |k] eqn:Ej; try reflexivity.
+      exfalso. exact (Hj k eq_refl). }
     rewrite E. cbn [fst snd]. repeat split.
-    intros j [tj [Hgj [Hcj Hjj]]]. unfold harmless. rewrite get_upd_task, get_add_trace.
+    intros j [tj [Hgj [Hcj Hjj]]]. unfold harmless, s1. rewrite get_upd_task, get_add_trace.
     destruct (Nat.eqb_spec i j) as [->|Hne].
     + rewrite Hgj. cbn [option_map]. eexists; split; [reflexivity|]. split; [right; reflexivity|exact Hjj].
     + exists tj. auto.
   - cbn [fst snd]. repeat split. intros j Hh. exact Hh.
 Qed.
 
-Lemma qof_poll_harmless m ins now i s loc : harmless i s -> qof loc (fst (poll_task m ins now i s)) = qof loc s.
-Proof. intros H. destruct (poll_harmless m ins now i s H) as [Hl [Hc _]]. destruct loc; assumption. Qed.
+Lemma qlen_poll_harmless m ins now i s loc : harmless i s -> qlen loc (fst (poll_task m ins now i s)) = qlen loc s.
+Proof.
+  intros H. destruct (poll_harmless m ins now i s H) as [Hl [Hc [Hi _]]]. unfold qlen. rewrite Hl, Hc, Hi. reflexivity.
+Qed.
 
-(* draining a queue of harmless tasks: the first n are polled, the rest stays *)
+Lemma qin_poll_harmless m ins now i s loc j : harmless i s -> qin loc j (fst (poll_task m ins now i s)) -> qin loc j s.
+Proof.
+  intros H. destruct (poll_harmless m ins now i s H) as [Hl [Hc [Hi _]]]. unfold qin. rewrite Hl, Hc, Hi. auto.
+Qed.
+
+(* draining queues of harmless tasks: the first n are polled, nothing is added *)
 Lemma drain_harmless m loc now : forall n s,
-  (forall j, In j (qof loc s) -> harmless j s) ->
-  qof loc (dr_st (drain m loc n now s)) = skipn n (qof loc s) /\
-  qof (negb loc) (dr_st (drain m loc n now s)) = qof (negb loc) s /\
-  length (dr_ps (drain m loc n now s)) = Nat.min n (length (qof loc s)) /\
+  (forall j, qin loc j s -> harmless j s) ->
+  qlen loc (dr_st (drain m loc n now s)) = qlen loc s - n /\
+  qlen (negb loc) (dr_st (drain m loc n now s)) = qlen (negb loc) s /\
+  length (dr_ps (drain m loc n now s)) = Nat.min n (qlen loc s) /\
   Forall (fun p => p = p0) (dr_ps (drain m loc n now s)) /\
   dr_dl (drain m loc n now s) = [].
 Proof.
   induction n as [|n IH]; intros s Hh; cbn [drain].
-  - unfold dr_st, dr_ps, dr_dl; cbn. auto.
+  - unfold dr_st, dr_ps, dr_dl; cbn. repeat split; auto; lia.
   - destruct (pop loc s) as [[i s1]|] eqn:Ep.
-    + destruct (pop_some _ _ _ _ Ep) as [Hq [Ho [Hts Htr]]].
+    + destruct (pop_some _ _ _ _ Ep) as [Hq [Hi [Hsub [Ho [_ [Hts _]]]]]].
       assert (Hg : forall j, get j s1 = get j s) by (intros j; unfold get; rewrite Hts; reflexivity).
       assert (Hh1 : forall j, harmless j s -> harmless j s1).
       { intros j [t Ht]. exists t. rewrite Hg. exact Ht. }
-      assert (Hi : harmless i s1) by (apply Hh1, Hh; rewrite Hq; left; reflexivity).
-      destruct (poll_harmless m loc now i s1 Hi) as [_ [_ [Hpres Hp]]].
-      pose proof (qof_poll_harmless m loc now i s1 loc Hi) as Hql.
-      pose proof (qof_poll_harmless m loc now i s1 (negb loc) Hi) as Hqo.
+      assert (Hi1 : harmless i s1) by (apply Hh1, Hh, Hi).
+      destruct (poll_harmless m loc now i s1 Hi1) as [_ [_ [_ [Hpres Hp]]]].
+      pose proof (qlen_poll_harmless m loc now i s1 loc Hi1) as Hql.
+      pose proof (qlen_poll_harmless m loc now i s1 (negb loc) Hi1) as Hqo.
+      pose proof (fun j => qin_poll_harmless m loc now i s1 loc j Hi1) as Hqi.
       destruct (poll_task m loc now i s1) as [s2 p]; cbn [fst snd] in *. subst p.
       specialize (IH s2). destruct (drain m loc n now s2) as [[s3 ps] dl].
       unfold dr_st, dr_ps, dr_dl in *; cbn [fst snd] in *.
       destruct IH as [I1 [I2 [I3 [I4 I5]]]].
-      { intros j Hj. apply Hpres, Hh1, Hh. rewrite Hq. right. rewrite <- Hql. exact Hj. }
-      rewrite Hq. cbn [skipn length Nat.min p0 mkp p_dfr]. rewrite I1, I2, I3, Hql, Hqo, Ho.
-      repeat split; try reflexivity; [constructor; [reflexivity|exact I4]|exact I5].
-    + apply pop_none in Ep. unfold dr_st, dr_ps, dr_dl; cbn [fst snd]. rewrite Ep. cbn. auto.
+      { intros j Hj. apply Hpres, Hh1, Hh, Hsub, Hqi. exact Hj. }
+      cbn [length p0 mkp p_dfr]. rewrite I1, I2, I3, Hql, Hqo, Ho, Hq.
+      repeat split; try lia; [constructor; [reflexivity|exact I4]|exact I5].
+    + apply pop_none in Ep. unfold dr_st, dr_ps, dr_dl; cbn [fst snd]. rewrite Ep. cbn. repeat split; auto; lia.
 Qed.
 
 (* ---- n tasks that return at once, all spawned by one callback ---- *)
 Definition idle_tasks (loc : bool) (n : nat) : list (bool * list op) := repeat (loc, []) n.
 Definition spawn_all (n : nat) : list act := map Spawn (seq 0 n).
 
+(* the queue [push loc] appends to *)
+Definition sq (loc : bool) (s : st) : list nat := if loc then lq s else cq s.
+
 Definition spawned (loc : bool) (n k : nat) (s : st) : Prop :=
-  qof loc s = seq 0 k /\ qof (negb loc) s = [] /\
+  sq loc s = seq 0 k /\ sq (negb loc) s = [] /\ inj s = [] /\
   (forall j, j < k -> harmless j s) /\
   (forall j, k <= j < n -> get j s = Some (mk_task loc [])).
 
 Lemma spawn_step loc n k now s : k < n -> spawned loc n k s -> spawned loc n (S k) (do_act now s (Spawn k)).
 Proof.
-  intros Hk [Hq [Ho [Hh Hr]]]. cbn [do_act]. rewrite (Hr k) by lia. cbn [stat mk_task].
+  intros Hk [Hq [Ho [Hi [Hh Hr]]]]. cbn [do_act]. rewrite (Hr k) by lia. cbn [stat mk_task].
   unfold wake, enqueue. rewrite !get_upd_same, (Hr k) by lia. cbn [option_map local mk_task set_stat set_jh fst].
   set (s1 := upd_task k (set_wk now) (upd_task k (set_stat Queued) (upd_task k (set_jh JTable) s))).
   assert (Hg : forall j, j <> k -> get j s1 = get j s).
   { intros j Hj. unfold s1. rewrite !get_upd_other by auto. reflexivity. }
-  repeat split.
-  - rewrite qof_push, eqb_reflx. unfold s1. rewrite !qof_upd_task, Hq, seq_S. reflexivity.
-  - rewrite qof_push. destruct loc; cbn [negb Bool.eqb]; unfold s1; rewrite !qof_upd_task; exact Ho.
+  split; [|split; [|split; [|split]]].
+  - unfold sq, push, s1 in *. destruct loc; cbn [lq cq set_lq set_cq upd_task] in *; rewrite Hq, seq_S; reflexivity.
+  - unfold sq, push, s1 in *. destruct loc; cbn [negb lq cq set_lq set_cq upd_task] in *; exact Ho.
+  - unfold push, s1. destruct loc; cbn [inj set_lq set_cq upd_task]; exact Hi.
   - intros j Hj. unfold harmless. rewrite get_push.
     destruct (Nat.eq_dec j k) as [->|Hne].
     + unfold s1. rewrite !get_upd_same, (Hr k) by lia. cbn [option_map].
@@ -118,73 +121,80 @@ Proof.
   apply IH. lia.
 Qed.
 
-Lemma init_spawned loc n : spawned loc n 0 (init (idle_tasks loc n)).
+Lemma init_spawned g loc n r : spawned loc n 0 (add_trace r (init g (idle_tasks loc n))).
 Proof.
-  unfold spawned. repeat split.
+  unfold spawned. split; [|split; [|split; [|split]]].
   - destruct loc; reflexivity.
   - destruct loc; reflexivity.
+  - reflexivity.
   - intros j Hj. lia.
-  - intros j [_ Hj]. unfold get, init, idle_tasks; cbn [tasks].
+  - intros j [_ Hj]. unfold get, init, idle_tasks; cbn [tasks add_trace].
     rewrite nth_error_map_repeat by exact Hj. reflexivity.
 Qed.
 
-Lemma spawned_all loc n now :
-  let s0 := handler now (spawn_all n) (init (idle_tasks loc n)) in
-  qof loc s0 = seq 0 n /\ qof (negb loc) s0 = [] /\ (forall j, In j (qof loc s0) -> harmless j s0).
+(* the state in which at_sim_start's exec begins *)
+Definition start_state (g : N) (loc : bool) (n : nat) : st := add_trace (RStart 0) (init g (idle_tasks loc n)).
+
+Lemma spawned_all g loc n now :
+  let s0 := handler now (spawn_all n) (start_state g loc n) in
+  qlen loc s0 = n /\ qlen (negb loc) s0 = 0 /\ (forall j, qin loc j s0 -> harmless j s0).
 Proof.
-  cbn zeta. destruct (spawn_prefix loc n now _ (init_spawned loc n) n (le_n n)) as [Hq [Ho [Hh _]]].
-  repeat split; try assumption. intros j Hj. rewrite Hq in Hj. apply in_seq in Hj. apply Hh. lia.
+  cbn zeta. destruct (spawn_prefix loc n now _ (init_spawned g loc n (RStart 0)) n (le_n n)) as [Hq [Ho [Hi [Hh _]]]].
+  fold (start_state g loc n) in *.
+  set (s0 := handler now (spawn_all n) (start_state g loc n)) in *.
+  unfold sq, qlen, qin in *. destruct loc; cbn [negb] in *; rewrite ?Hq, ?Ho, ?Hi, ?seq_length; cbn [length];
+    (split; [lia|split; [reflexivity|]]); intros j Hj.
+  - apply in_seq in Hj. apply Hh. lia.
+  - destruct Hj as [Hj|[]]. apply in_seq in Hj. apply Hh. lia.
 Qed.
 
-Definition fanout (loc : bool) (b : budgets) (now : N) (n : nat) : event :=
-  {| e_b := b; e_now := now; e_acts := spawn_all n; e_st := init (idle_tasks loc n) |}.
+(* the callback is at_sim_start's (instant 0); any callback would do *)
+Definition fanout (loc : bool) (b : budgets) (g : N) (n : nat) : event :=
+  {| e_b := b; e_now := 0; e_acts := spawn_all n; e_st := start_state g loc n |}.
 
-Lemma skipn_seq_last B : skipn B (seq 0 (S B)) = [B].
-Proof.
-  rewrite seq_S. rewrite skipn_app, seq_length, Nat.sub_diag. cbn [skipn Nat.add].
-  rewrite skipn_all2 by (rewrite seq_length; lia). reflexivity.
-Qed.
+Lemma queues_length s : length (queues s) = qlen true s + qlen false s.
+Proof. unfold queues, qlen. rewrite !app_length. lia. Qed.
 
 (* B+1 tokio::spawn in one callback, event_interval = B *)
-Lemma fanout_rt bl B c now :
-  let x := fanout false {| b_local := bl; b_rt := B; b_coop := c |} now (S B) in
-  polls_needed_local x = 0 /\ polls_needed_rt x = S B /\ queue_after x = [B].
+Lemma fanout_rt bl B c g :
+  let x := fanout false {| b_local := bl; b_rt := B; b_coop := c |} g (S B) in
+  polls_needed_local x = 0 /\ polls_needed_rt x = S B /\ length (queue_after x) = 1.
 Proof.
   cbn zeta. unfold polls_needed_local, polls_needed_rt, queue_after, ideal_first, exec_bounded, fanout;
     cbn [e_b e_now e_acts e_st b_local b_rt b_coop].
-  set (s0 := handler now (spawn_all (S B)) (init (idle_tasks false (S B)))).
-  destruct (spawned_all false (S B) now) as [Hq [Ho Hh]]. fold s0 in Hq, Ho, Hh. cbn [negb] in Ho.
+  set (s0 := handler 0 (spawn_all (S B)) (start_state g false (S B))).
+  destruct (spawned_all g false (S B) 0%N) as [Hq [Ho Hh]]. fold s0 in Hq, Ho, Hh. cbn [negb] in Ho.
   rewrite ideal_round_spec. cbn zeta. cbn [fst snd].
-  rewrite (drain_empty None true (measure s0) now s0 Ho). unfold dr_st at 1 2, dr_ps at 1; cbn [fst snd length].
-  destruct (drain_harmless None false now (measure s0) s0 Hh) as [_ [_ [Hl _]]].
+  rewrite (drain_empty None true (measure s0) 0%N s0 Ho). unfold dr_st at 1 2, dr_ps at 1; cbn [fst snd length].
+  destruct (drain_harmless None false 0%N (measure s0) s0 Hh) as [_ [_ [Hl _]]].
   split; [reflexivity|]. split.
-  - rewrite Hl, Hq, seq_length. pose proof (measure_queue false s0) as Hm. rewrite Hq, seq_length in Hm. lia.
-  - unfold exec_event. fold s0. rewrite (drain_empty (Some c) true bl now s0 Ho).
-    destruct (drain_harmless (Some c) false now B s0 Hh) as [H1 [H2 [_ [_ H5]]]].
-    destruct (drain (Some c) false B now s0) as [[s2 p3] d3]. unfold dr_st, dr_dl in *; cbn [fst snd negb qof] in *.
-    subst d3. cbn [app wake_deferred fst]. rewrite H2, Ho, H1, Hq, skipn_seq_last. reflexivity.
+  - rewrite Hl, Hq. pose proof (measure_queue false s0) as Hm. lia.
+  - unfold exec_event. fold s0. rewrite (drain_empty (Some c) true bl 0%N s0 Ho).
+    destruct (drain_harmless (Some c) false 0%N B s0 Hh) as [H1 [H2 [_ [_ H5]]]].
+    destruct (drain (Some c) false B 0%N s0) as [[s2 p3] d3]. unfold dr_st, dr_dl in *; cbn [fst snd negb] in *.
+    subst d3. cbn [app wake_deferred fst]. rewrite queues_length, H1, H2, Hq, Ho. lia.
 Qed.
 
 (* B+1 spawn_local in one callback, MAX_TASKS_PER_TICK = B *)
-Lemma fanout_local B br c now :
-  let x := fanout true {| b_local := B; b_rt := br; b_coop := c |} now (S B) in
-  polls_needed_local x = S B /\ polls_needed_rt x = 0 /\ queue_after x = [B].
+Lemma fanout_local B br c g :
+  let x := fanout true {| b_local := B; b_rt := br; b_coop := c |} g (S B) in
+  polls_needed_local x = S B /\ polls_needed_rt x = 0 /\ length (queue_after x) = 1.
 Proof.
   cbn zeta. unfold polls_needed_local, polls_needed_rt, queue_after, ideal_first, exec_bounded, fanout;
     cbn [e_b e_now e_acts e_st b_local b_rt b_coop].
-  set (s0 := handler now (spawn_all (S B)) (init (idle_tasks true (S B)))).
-  destruct (spawned_all true (S B) now) as [Hq [Ho Hh]]. fold s0 in Hq, Ho, Hh. cbn [negb] in Ho.
+  set (s0 := handler 0 (spawn_all (S B)) (start_state g true (S B))).
+  destruct (spawned_all g true (S B) 0%N) as [Hq [Ho Hh]]. fold s0 in Hq, Ho, Hh. cbn [negb] in Ho.
   rewrite ideal_round_spec. cbn zeta. cbn [fst snd].
-  destruct (drain_harmless None true now (measure s0) s0 Hh) as [H1 [H2 [Hl _]]].
-  assert (Hm : S B <= measure s0) by (pose proof (measure_queue true s0) as Hm; rewrite Hq, seq_length in Hm; exact Hm).
-  assert (Hc1 : qof false (dr_st (drain None true (measure s0) now s0)) = []) by (cbn [negb] in H2; rewrite H2; exact Ho).
-  rewrite (drain_empty None false _ now _ Hc1). unfold dr_ps at 2; cbn [fst snd length].
-  split; [rewrite Hl, Hq, seq_length; lia|]. split; [reflexivity|].
+  destruct (drain_harmless None true 0%N (measure s0) s0 Hh) as [H1 [H2 [Hl _]]].
+  assert (Hm : S B <= measure s0) by (pose proof (measure_queue true s0) as Hm; lia).
+  assert (Hc1 : qlen false (dr_st (drain None true (measure s0) 0%N s0)) = 0) by (cbn [negb] in H2; rewrite H2; exact Ho).
+  rewrite (drain_empty None false _ 0%N _ Hc1). unfold dr_ps at 2; cbn [fst snd length].
+  split; [rewrite Hl, Hq; lia|]. split; [reflexivity|].
   unfold exec_event. fold s0.
-  destruct (drain_harmless (Some c) true now B s0 Hh) as [G1 [G2 [_ [_ G5]]]].
-  destruct (drain (Some c) true B now s0) as [[s1 p2] d2]. unfold dr_st, dr_dl in *; cbn [fst snd negb qof] in *.
-  subst d2. rewrite (drain_empty (Some c) false br now s1) by (cbn [qof]; rewrite G2; exact Ho).
-  cbn [app wake_deferred fst]. rewrite G1, G2, Ho, Hq, skipn_seq_last. reflexivity.
+  destruct (drain_harmless (Some c) true 0%N B s0 Hh) as [G1 [G2 [_ [_ G5]]]].
+  destruct (drain (Some c) true B 0%N s0) as [[s1 p2] d2]. unfold dr_st, dr_dl in *; cbn [fst snd negb] in *.
+  subst d2. rewrite (drain_empty (Some c) false br 0%N s1) by (rewrite G2; exact Ho).
+  cbn [app wake_deferred fst]. rewrite queues_length, G1, G2, Hq, Ho. lia.
 Qed.
 
 (* an event that leaves something queued is in the known class *)
@@ -250,7 +260,7 @@ Qed.
 Definition receiver (c : N) (now : N) : st :=
   {| tasks := [ {| local := true; code := Some (repeat Recv (S (N.to_nat c))); stat := Queued;
                    inbox := c + 1; jh := JTable; wk := now |} ];
-     lq := []; cq := []; trace := [] |}.
+     lq := []; cq := []; inj := []; stick := 0; gqi := 31; trace := [] |}.
 
 Lemma coop_budget_defers c now :
   (* without budget: one poll, c+1 receives, finished *)
